@@ -61,6 +61,10 @@ pub struct WorldSpec {
     /// reserved pair at the socket-call boundary (shim), so that many such worlds can run at once.
     #[serde(default)]
     pub default_ports: u8,
+    /// the configuration does not mention max_retained_runs (documented default: 10); `max_retained_runs` above
+    /// must then be 10
+    #[serde(default)]
+    pub omit_max_retained: bool,
 }
 
 impl WorldSpec {
@@ -108,6 +112,9 @@ impl WorldSpec {
                 "log": {"host": "127.0.0.1", "port": log_port, "bind_timeout_ms": 1000}
             }
         });
+        if self.omit_max_retained {
+            cfg.as_object_mut().unwrap().remove("max_retained_runs");
+        }
         match self.default_ports {
             1 => {
                 cfg["server"] = serde_json::json!({ "lock": {"bind_timeout_ms": 1000}, "log": {"bind_timeout_ms": 1000} });
